@@ -39,7 +39,67 @@ func init() {
 	})
 }
 
+// c18Propagate: an invalid declaration inside a sub-command's initializer, NOT recovered by the program: whichever way the
+// library comes to run that initializer (the sub-command is addressed, its help is requested, or the parent's help is
+// rendered and lists it), the panic reaches the caller of Run; it is never swallowed on the way
+func c18Propagate(c *core.Ctx) {
+	r := c.R
+	kind := r.Intn(4)
+	argvs := [][]string{{"--help"}, {"-h"}, {}, {"nosuch"}, {"--nosuch"}, {"sub"}, {"sub", "--help"}, {"sub", "x", "-h"}, {"s"}, {"other", "--help"}}
+	argv := argvs[r.Intn(len(argvs))]
+	pol := []flag.ErrorHandling{flag.ContinueOnError, flag.ExitOnError, flag.PanicOnError}[r.Intn(3)]
+	desc := map[string]interface{}{"sub_command_declares": []string{"-f and then -f again", "--force --ff and then -x --force", "SRC and then SRC", "an argument named src"}[kind], "argv": argv, "policy": policyName(pol)}
+	c.Journal(desc)
+	c.Nontrivial("P", fmt.Sprint(kind, argv, pol))
+	cli.VerifSetStdErr(io.Discard)
+	cli.VerifSetStdOut(io.Discard)
+	exited := false
+	cli.VerifSetExiter(func(int) { exited = true; panic("exit stub") })
+	app := cli.App("app", "")
+	app.ErrorHandling = pol
+	ran := false
+	reached := false
+	app.Command("other", "", func(sc *cli.Cmd) { sc.Action = func() { ran = true } })
+	app.Command("sub s", "", func(sc *cli.Cmd) {
+		reached = true
+		switch kind {
+		case 0:
+			sc.BoolOpt("f", false, "")
+			sc.BoolOpt("f", false, "")
+		case 1:
+			sc.StringOpt("force ff", "", "")
+			sc.StringOpt("x force", "", "")
+		case 2:
+			sc.StringArg("SRC", "", "")
+			sc.StringsArg("SRC", nil, "")
+		default:
+			sc.StringArg("src", "", "")
+		}
+		sc.Action = func() { ran = true }
+	})
+	var pan interface{}
+	func() {
+		defer func() { pan = recover() }()
+		app.Run(append([]string{"app"}, argv...))
+	}()
+	c.Eval()
+	if !reached {
+		// the library did not run the initializer for this invocation: nothing to judge
+		c.Inc("P_initializer_not_run")
+		return
+	}
+	if pan == nil || exited || ran || pan == "exit stub" {
+		c.Violation(fmt.Sprintf("an invalid declaration in a sub-command's initializer did not reach the caller of Run as a panic (panic=%v exited=%v action ran=%v)", pan, exited, ran), desc, nil)
+		return
+	}
+	c.Inc("P_panic_reached_the_caller")
+}
+
 func runC18(c *core.Ctx) {
+	if c.Index%16 == 5 {
+		c18Propagate(c)
+		return
+	}
 	r := c.R
 	cli.VerifSetStdErr(io.Discard)
 	type od struct {
